@@ -65,6 +65,8 @@ func (m *Machine) Step(t *rapid.T, failPct int) {
 		m.ActSave(t)
 	case "restart":
 		m.ActRestartProbe(t)
+	case "saveRetention":
+		m.ActSaveRetention(t)
 	}
 }
 
@@ -223,4 +225,15 @@ func TestC10Sim(t *testing.T) {
 		nontrivial: func(c map[string]int) bool {
 			return c["restart:with-finished"] > 0 && (c["restart:with-running"] > 0 || c["restart:with-waiting"] > 0) && (c["restart:with-failed-task"] > 0 || c["payload:non-integer-number"] > 0)
 		}})
+}
+
+// C12: retention removes only finished jobs, oldest first, with their logs.
+func TestC12(t *testing.T) {
+	cfg := &Cfg{Prop: "C12", MaxPipelines: 3, MaxTasks: 2, DelayPct: 25, ReplacePct: 10, Retention: true, DiskStore: true, Logs: true, Preload: true,
+		LimitChoices: []int{-1, -1, 3}, Weights: map[string]int{"schedule": 30, "cancel": 8, "finish": 26, "timer": 6, "hold": 2, "release": 3, "reload": 5, "saveRetention": 18},
+		ReloadKinds: []string{"removePipeline", "removePipeline", "addPipeline", "retention", "retention", "conc"},
+		Armed:       map[string]bool{"C12": true}}
+	runHistories(t, histOpts{cfg: cfg, failPct: 20,
+		rule:       "simulator histories over a real JsonDataStore and FileOutputStore: retention_count in {0,1,2,3,5} x retention_period in {0,1h,24h} per pipeline, a pre-loaded data.json with jobs of generated ages (>=25% away from the period boundaries), states (finished, canceled, failed, running/waiting left by a crashed run, jobs of an undefined pipeline) and log directories, then live activity interleaved with explicit saves and reloads that drop/add pipelines or edit retention; oracle around every save (sets before/after): removed jobs are finished ones of defined pipelines or belong to undefined pipelines; <= count finished remain; none older than the period; a kept finished job implies all newer finished ones kept; no settings => nothing removed; API ids == store ids == /pipelines/jobs ids; removed jobs' log directories gone, kept ones byte-identical; non-trivial = a save with a removed and a kept job in one pipeline and an unfinished job ranked above a finished one; distinct by action trace",
+		nontrivial: func(c map[string]int) bool { return c["save:nontrivial"] > 0 }})
 }
